@@ -409,7 +409,7 @@ def x6_for_ghost_iter(text, log):
     def f(m):
         log.add("X9:for-ghost-iterator-name")
         return "%sfor %s in it: %s" % (m.group(1), m.group(2), m.group(3))
-    return re.sub(r"(^|\n)(\s*)for ([a-z_][a-z0-9_]*|\([a-z_, ]*\)) in ([a-z_][a-z0-9_.()]*) (?=\{)", lambda m: "%s%sfor %s in it: %s " % (m.group(1), m.group(2), m.group(3), m.group(4)) if not log.add("X9:for-ghost-iterator-name") else "", text)
+    return re.sub(r"(^|\n)(\s*)for ([a-z_][a-z0-9_]*|\([a-z_, ]*\)) in ([a-z_0-9][a-z0-9_.()]*) (?=\{)", lambda m: "%s%sfor %s in it: %s " % (m.group(1), m.group(2), m.group(3), m.group(4)) if not log.add("X9:for-ghost-iterator-name") else "", text)
 
 
 def x5b_ref_enum_pattern(text, log):
@@ -468,7 +468,21 @@ def x1_nopub(text, log):
     return t2
 
 
+def x3r_by_value_reader(text, log):
+    """as X3b, for `mut reader: R` taken by value (R = &[u8], Cursor, cfb::Stream, ...):
+    the parameter becomes `reader: &mut VSource`, `&mut reader` / `reader.by_ref()` become
+    the reborrow `&mut *reader` (`impl Read for &mut R` forwards)."""
+    t2 = re.sub(r"<\s*R\s*:\s*Read(?:\s*\+\s*Seek)?\s*>", "", text)
+    t2 = re.sub(r"\bmut reader\s*:\s*R\b", "reader: &mut VSource", t2)
+    t2 = t2.replace("&mut reader", "&mut *reader").replace("reader.by_ref()", "&mut *reader")
+    t2 = re.sub(r"::<LittleEndian>", "", t2)
+    if t2 != text:
+        log.add("X3b:by-value-reader-as-&mut-VSource")
+    return t2
+
+
 OPTS = {
+    "x3r": x3r_by_value_reader,
     "x5d": x5d_for_copy_tuple,
     "nopub": x1_nopub,
     "x5c": x5c_for_ref_tuple,
